@@ -159,6 +159,9 @@ pub fn run(ctx: &Ctx) -> i32 {
             col.class(&format!("trace:{}", crate::collect::fnv(tclass.as_bytes()) % 1_000_000));
             col.max("max_reader_calls", t0.len() as u64);
             let n_reads = t0.iter().filter(|c| matches!(c, Call::Read { .. })).count();
+            if i % 61 == 0 && rep == 0 {
+                col.sample(json!({"frame_hex": hex(&bytes), "from_bytes": format!("{base:?}"), "baseline_call_trace": tclass, "read_calls": n_reads}));
+            }
             let mut schedules: Vec<(Vec<Step>, usize, &'static str)> = Vec::new();
             schedules.push((vec![], usize::MAX, "full"));
             for c in 1..=8usize {
